@@ -162,7 +162,9 @@ func runKilled(set string, pathFilter string, seccomp bool, k int, childArgs ...
 	}
 	args := []string{"-f", "-qq", "-o", "/dev/null"}
 	if pathFilter != "" {
-		args = append(args, "-P", pathFilter)
+		for _, p := range strings.Split(pathFilter, ",") {
+			args = append(args, "-P", p)
+		}
 	}
 	if seccomp {
 		args = append(args, "--seccomp-bpf")
@@ -380,11 +382,14 @@ func runPsCrash(c psCrashCase) string {
 	}
 	var kills []string
 	seen := map[string]bool{}
-	for _, call := range []string{"openat", "write"} {
+	pinfos, _ := parsePinfoToks(c.new)
+	rerunOK := 1
+	for _, call := range []string{"openat", "write", "renameat"} {
 		done := false
 		for k := 1; k <= maxKill; k++ {
+			os.Remove(path + ".tmp")
 			os.WriteFile(path, ob.Bytes(), 0600)
-			survived, ok := runKilled(call, path, false, k, "-child", "psave", "-file", path, "-pinfos", c.new)
+			survived, ok := runKilled(call, path+","+path+".tmp", false, k, "-child", "psave", "-file", path, "-pinfos", c.new)
 			if !ok {
 				return "# inconclusive strace " + c.input()
 			}
@@ -393,16 +398,26 @@ func runPsCrash(c psCrashCase) string {
 				break
 			}
 			l := loadedTokens(path)
-			if !seen[l] {
-				seen[l] = true
-				kills = append(kills, l)
+			// restart: save again, uninterrupted
+			pstoremgr.New(context.Background(), nil, path).SavePeerstore(pinfos)
+			if _, err := os.Stat(path + ".tmp"); err == nil {
+				rerunOK = 0
+			}
+			pt := l + ">" + loadedTokens(path)
+			if !seen[pt] {
+				seen[pt] = true
+				kills = append(kills, pt)
 			}
 		}
 		if !done {
 			return "# inconclusive too-many-steps " + c.input()
 		}
 	}
-	kills = append(kills, loadedTokens(path)) // the run that was not killed
+	stray := 0
+	if _, err := os.Stat(path + ".tmp"); err == nil {
+		stray = 1
+	}
+	kills = append(kills, loadedTokens(path)+">.") // the run that was not killed
 	// byte-level cuts of the complete new file (a write that was carried out only in part)
 	full, _ := os.ReadFile(path)
 	lines := strings.Split(strings.TrimSuffix(string(full), "\n"), "\n")
@@ -462,7 +477,7 @@ func runPsCrash(c psCrashCase) string {
 			}
 		}
 	}
-	return fmt.Sprintf("kill=%s cut=%d.%d.%d.%d", strings.Join(kills, "|"), nbad, nbare, nfull, nmis)
+	return fmt.Sprintf("kill=%s rerun=%d stray=%d cut=%d.%d.%d.%d", strings.Join(kills, "|"), rerunOK, stray, nbad, nbare, nfull, nmis)
 }
 
 // ---- generators
